@@ -129,7 +129,13 @@ fn imports_of(ast: &Program) -> Vec<ImportDecl> {
 
 fn wrap(r: Result<Value, (String, String)>) -> Value {
     match r {
-        Ok(v) => v,
+        Ok(v) => {
+            // the language-server driver reports its own deadline (the handler never completed)
+            if v.get("panic").and_then(|x| x.as_str()) == Some("TIMEOUT") {
+                TIMED_OUT.store(true, Ordering::SeqCst);
+            }
+            v
+        }
         Err(e) => {
             if e.0 == "TIMEOUT" {
                 TIMED_OUT.store(true, Ordering::SeqCst);
